@@ -3,7 +3,7 @@
 Every ``return <reason>`` of ``requires_subquery`` is a *guard*.  It is parsed into
 (verb classes, state atoms, scope) from the conditions that dominate it:
 
-  LIMITED   mentions ``self.limit``          GROUPED  mentions ``self.group_by``
+  LIMITED   mentions ``self.limit``          GROUPED  mentions ``self.group_by`` / ``self.is_aggregated``
   FILTERED  mentions ``self.is_filtered``    CONST    mentions ``is_const``
   WINDOWED  mentions ``Ftype.WINDOW`` / ``Ftype.AGGREGATE`` / ``!= Ftype.ELEMENT_WISE``
      scope: what is iterated - ``node.iter_col_nodes()`` / ``node.on...`` = columns
@@ -277,7 +277,7 @@ def parse_guards(sym, module, func) -> tuple[list[Guard], ast.AST | None]:
             txt = norm(t)
             if "limit" in m and "self.limit" in txt:
                 atoms.add("LIMITED")
-            if "self.group_by" in txt:
+            if "self.group_by" in txt or "self.is_aggregated" in txt:
                 atoms.add("GROUPED")
             if "is_filtered" in m:
                 atoms.add("FILTERED")
